@@ -30,6 +30,7 @@ func runC02(c *Ctx) {
 	c.importRules(runC07, "C07", map[string]string{"buckets": "buckets"})
 	c02MapWalk(c, "C02")
 	c02ClosestExact(c, "C02.closest-exact")
+	c02DriverFeature(c)
 	// "identical for clients with a location": both readers must consult the location-neutral rows the same way
 	// (seeds c02e, c02g), and the per-request RocksDB context must not survive the request (seed c02f)
 	c.importRules(runC04, "C04", map[string]string{"untagged": "untagged", "keyloc": "keyloc"})
